@@ -25,10 +25,10 @@ from core.report import Result
 
 from .absint import BoolF, Coll, Const, DictV, Inst, Interp, Sym, assign_atoms, roots_of, show_term, subterms, tainted, term_of
 from .common import where
-from .tables import (
-    ATOMS, BEHAVIOR, DETECTOR, EVAL_GRAPH, EXPLICIT_QUERY, LEGAL_POINTS, MATCHER, MODREQ, OTHER_QUERIES, PIPE_MODULES, RULE, SEARCHES, VERBS, VIOLATIONS,
-    EVALUABLE_CLS, Inliner, Run, Scenario, alias_scenarios, bound_args, descend_pipeline, plain_detector_class, simple_helper, violations_class, asked_kinds, bucket_wiring, demand_run, legal_scenarios, parse_language_doc, plain_mode, point_env, point_name,
-    run_scenario,
+from .tables import (  # noqa: F401
+    EVALUABLE_CLS, EXPLICIT_QUERY, LEGAL_POINTS, MATCHER, MODREQ, OTHER_QUERIES, RULE,
+    Inliner, Run, Scenario, alias_scenarios, bound_args, bucket_wiring, demand_run, descend_pipeline, legal_scenarios, parse_language_doc, plain_detector_class,
+    plain_mode, point_name, point_taint, run_scenario, simple_helper, violations_class,
 )
 
 SUCC = "direct_successor_nodes"
@@ -132,7 +132,7 @@ def run_t2_t3(repo: Repo, res: Result, inl: Inliner | None, sem: dict) -> None:
         for imp in (True, False):
             b = demand_run(repo, Scenario(verb, exc, imp))
             per_dir[imp] = {(x.source, x.mode) for x in b.values() if not x.empty}
-            und = und or next((x.undecided for x in b.values() if x.undecided), "")
+        und = point_taint(repo, verb, exc)
         active = per_dir[True] | per_dir[False]
         ok = per_dir[True] == want and per_dir[False] == want
         table[point_name(verb, exc)] = sorted(map(str, active))
@@ -151,11 +151,11 @@ def run_t2_t3(repo: Repo, res: Result, inl: Inliner | None, sem: dict) -> None:
                 res.add("C01.T3", f"{grv.relpath}::{grv.qualname}::starvation @ {point_name(verb, exc)}", True, f"'{point_name(verb, exc)}': buckets read {sorted(map(str, used))}, questions asked {sorted(asked)}", where(grv, grv.node), kind="decision-table")
                 break
             if used != asked:
-                res.add(
-                    "C01.T3", f"{grv.relpath}::{grv.qualname}::starvation @ {point_name(verb, exc)}", False,
+                _add(
+                    res, "C01.T3", f"{grv.relpath}::{grv.qualname}::starvation @ {point_name(verb, exc)}", False,
                     f"'{sc.name}': buckets read {sorted(map(str, used))}, questions asked {sorted(asked)}"
                     + (": a bucket whose data is never requested receives None and passes vacuously" if used - asked else ": a question is asked whose answer no bucket reads"),
-                    where(grv, grv.node), kind="decision-table",
+                    where(grv, grv.node), "decision-table", und,
                 )
                 break
     res.analysed["bucket_table"] = table
@@ -712,8 +712,8 @@ def run(repo: Repo) -> Result:
     if notes:
         res.observe("constructs on the evaluated pipeline that the interpreter walked without a model: " + "; ".join(notes[:8]))
     guarded_search(repo, res)
-    res.floor("C01.T1", 12, sum(1 for o in res.obligations if o.rule == "C01.T1"))
-    res.floor("C01.T2", 6, sum(1 for o in res.obligations if o.rule == "C01.T2"))
-    res.floor("C01.T4", 8, sum(1 for o in res.obligations if o.rule == "C01.T4"))
-    res.floor("C01.T5", 10, sum(1 for o in res.obligations if o.rule == "C01.T5"))
+    res.floor("C01.T1", 12, sum(1 for o in res.obligations if o.rule == "C01.T1") + sum(1 for u in res.undecided if u["rule"] == "C01.T1"))
+    res.floor("C01.T2", 6, sum(1 for o in res.obligations if o.rule == "C01.T2") + sum(1 for u in res.undecided if u["rule"] == "C01.T2"))
+    res.floor("C01.T4", 8, sum(1 for o in res.obligations if o.rule == "C01.T4") + sum(1 for u in res.undecided if u["rule"] == "C01.T4"))
+    res.floor("C01.T5", 10, sum(1 for o in res.obligations if o.rule == "C01.T5") + sum(1 for u in res.undecided if u["rule"] == "C01.T5"))
     return res
